@@ -156,6 +156,7 @@ var sketchUnit = transUnit{Dir: "ddsketch", File: "CodeSketch", NS: "DDS.Gen.Ske
 		"DDSketchWithExactSummaryStatistics.Add", "DDSketchWithExactSummaryStatistics.AddWithCount",
 		"DDSketchWithExactSummaryStatistics.MergeWith", "DDSketchWithExactSummaryStatistics.Copy",
 		"DDSketchWithExactSummaryStatistics.Reweight",
+		"DDSketch.GetValuesAtQuantiles", "DDSketchWithExactSummaryStatistics.GetValuesAtQuantiles",
 	}}
 
 var datasetUnit = transUnit{Dir: "dataset", File: "CodeDataset", NS: "DDS.Gen.Dataset", Mode: "f64",
@@ -2045,6 +2046,10 @@ func (t *tr) stmt(s ast.Stmt, sc *sctx, kf func() string) string {
 				rt := t.cur.sig.Results().At(i).Type()
 				if p, ok := rt.(*types.Pointer); ok {
 					vals = append(vals, t.zero(r, p.Elem()))
+					continue
+				}
+				if _, ok := rt.Underlying().(*types.Slice); ok {
+					vals = append(vals, "[]") // a nil slice
 					continue
 				}
 			}
